@@ -28,6 +28,19 @@ from hypothesis import strategies as st
 MODULES = ["vgen", "vgen.sub.deep", "LOCAL"]
 ENUM_VALUES = [0, 1, -1, 7, "a", "", "é", None, 1.5, 2.25, "x y"]
 
+EXTRAS = ["__iter__", "__len__", "__bool__", "__getitem__", "__call__", "__eq__", "__contains__", "property", "classattr"]
+EXTRA_SOURCE = {
+    "__iter__": ["    def __iter__(self):", "        return iter(['it', 1])"],
+    "__len__": ["    def __len__(self):", "        return 0"],
+    "__bool__": ["    def __bool__(self):", "        return False"],
+    "__getitem__": ["    def __getitem__(self, key):", "        return 'item'"],
+    "__call__": ["    def __call__(self, *a, **k):", "        return 'called'"],
+    "__eq__": ["    def __eq__(self, other):", "        return True", "    __hash__ = None"],
+    "__contains__": ["    def __contains__(self, x):", "        return True"],
+    "property": ["    @property", "    def computed(self):", "        return 'computed'"],
+    "classattr": ["    shared_default = ('class', 'level')"],
+}
+
 IDENT_POOL = ["a", "b", "c", "x", "y", "z", "k1", "k2", "foo", "bar", "id", "n0", "v", "w", "q9", "abc", "name", "val", "m", "t7"]
 idents = st.sampled_from(IDENT_POOL)
 prims = st.one_of(
@@ -99,6 +112,9 @@ def class_tables(draw, max_classes=4, kinds=("dict", "dict", "slots", "slots", "
                 nme = pool.pop(draw(st.integers(0, len(pool) - 1)))
                 vis = draw(st.sampled_from(vis_pool))
                 spec["fields"].append({"pub": nme, "prot": "_" + nme, "priv": "__" + nme}[vis])
+        if kind in ("dict", "slots"):
+            # behaviour the class has beyond its fields: it is still an attribute-dict / slotted class
+            spec["extras"] = draw(st.lists(st.sampled_from(EXTRAS), max_size=2, unique=True)) if draw(st.integers(0, 3)) == 0 else []
         # homonyms: the same simple name may be defined in another module (or in the
         # local table), never twice in one module nor along one inheritance chain
         cand = draw(st.sampled_from(["", "", "Twin", "Point"]))
@@ -239,6 +255,8 @@ class Builder(object):
             if kind == "slots":
                 seq = ", ".join(repr(f) for f in spec["fields"])
                 lines.append("    __slots__ = [%s]" % seq if spec.get("slots_list") else "    __slots__ = (%s%s)" % (seq, "," if spec["fields"] else ""))
+            for extra in spec.get("extras") or []:
+                lines.extend(EXTRA_SOURCE[extra])
             lines.append("    def _set_own(self, values):")
             body = ["        self.%s = values[%r]" % (f, real) for f, real in zip(spec["fields"], [
                 ("_%s%s" % (name, f) if f.startswith("__") and not f.endswith("__") else f) for f in spec["fields"]]) ]
@@ -359,7 +377,7 @@ def same(a, b, path="$"):
 
 def spec_stats(case):
     """depth, whether local / inherited / serial classes are used by the value"""
-    st_ = {"depth": 0, "local": False, "inherit": False, "serial": False, "enum": False, "decimal": False, "bean_in_field": False, "beans": 0, "homonyms": False}
+    st_ = {"depth": 0, "local": False, "inherit": False, "serial": False, "enum": False, "decimal": False, "bean_in_field": False, "beans": 0, "homonyms": False, "extras": False}
     used = set()
 
     def walk(vs, d, in_field):
@@ -396,4 +414,5 @@ def spec_stats(case):
     walk(case["value"], 0, False)
     names = [class_name(case["classes"], i) for i in used]
     st_["homonyms"] = len(set(names)) < len(names)
+    st_["extras"] = any(case["classes"][i].get("extras") for i in used)
     return st_
